@@ -95,7 +95,11 @@ def double_replay(dump_text, unit, ref, rtol=1e-9):
             sh[int(f[1])] = float(line.split(";")[1])
             if f[2] == "in":
                 env[f[3]] = sh[int(f[1])]
-    exp = ref(unit, env, FloatFns())
+    try:
+        exp = ref(unit, env, FloatFns())
+    except TypeError:
+        # reference defined through the exact evaluation of the DAG (cut points): no floating point version
+        return {"inputs": {k: v for k, v in env.items() if not k.startswith("g")}, "mismatches": [], "skipped": True}
     bad = []
     import re as _re
     for oname, node in unit.outs:
